@@ -3,27 +3,27 @@
 import json, subprocess
 claims = {
  "C02": ("block-level code under nopanic/terminates contracts: every panicking operation and every loop in those functions is an obligation", "DESIGN.md 6 C02"),
- "C04": ("functional contracts of the escrow hops (worker accrual, claim, deposit, order refund/termination, payment address) discharged for all inputs", "DESIGN.md 6 C04"),
+ "C04": ("functional contracts of the escrow hops (Store charge = quoted price rounded up, renewal quote and charge, worker accrual, claim, deposit, order refund/termination, payment address) discharged for all inputs", "DESIGN.md 6 C04"),
  "C05": ("postconditions of cancellation (Cancel handler, CancelOrder, RefundOrder, RollbackMeta) taken from the statement, discharged for all orders, shard lists and metadata states", "DESIGN.md 6 C05"),
  "C06": ("ledger/bank pairing clauses on the functions that move escrowed coins (DID balances, order refunds, pledge, release, claim)", "DESIGN.md 6 C06"),
  "C07": ("delta contracts on every collateral function (ShardPledge, ShardRelease, RepayPledgeDebt, Add/RemoveVstorage, ClaimReward) incl. capacity invariant and exact amounts", "DESIGN.md 6 C07"),
  "C08": ("mint bound, counter == minted, accumulator update (BeginBlocker) and settle invariants of every capacity change; claim pays floor(Q) less debt", "DESIGN.md 6 C08"),
- "C10": ("actor clauses from the statement on Cancel and on the node handlers (frames keyed by msg.Creator)", "DESIGN.md 6 C10"),
+ "C10": ("actor clauses from the statement on Cancel, Store (payer/gateway), Ready, Renew, Terminate and on the node handlers (frames keyed by msg.Creator)", "DESIGN.md 6 C10"),
+ "C12": ("scheduling and per-step progress contracts: Store/Ready schedule the first check strictly in the future, SetTimeoutOrderBlock keeps the queue, HandleTimeoutOrder leaves the order resolved or rescheduled (one known finding) and never touches a fully stored order; the step from per-step progress to 'eventually' is a meta-argument over block production", "DESIGN.md 6 C12"),
+ "C13": ("relational clauses on the writers of orders and shards: NewOrder/GenerateShards/Store/Ready create exactly the listed shards pointing back at the order, HandleTimeoutOrder keeps every shard that names the order listed by it, HandleExpiredShard removes the order with its last shard, NewMeta creates exactly one alias entry; the whole-state invariant is assumed at entry of each handler and re-established clause by clause, not discharged against InitGenesis", "DESIGN.md 6 C13"),
  "C11": ("scheduling contracts of the data-expiry schedule (set/remove/rollback) with uniqueness preconditions", "DESIGN.md 6 C11"),
  "C14": ("delta contracts for used capacity, shard collateral, worker storage/income and pool totals on every writer under contract", "DESIGN.md 6 C14"),
  "C16": ("identifier freshness and monotonicity of AppendOrder/AppendShard against the stored counters, with the id<count invariant as pre/postcondition", "DESIGN.md 6 C16"),
  "C01": ("per-transition frame obligations over the go/ssa call graph (no mutable package-level state read or written, wall clock/random sources reach only effect-free sinks, no goroutines/channels) for all 46 transitions, plus SMT-discharged order-independence contracts for every loop that ranges over a Go map (Terminate, UpdateMeta, DoPenalty)", "DESIGN.md 6 C01"),
  "C03": ("per-transition frame obligations: no transition's closure reads or writes a mutable package-level variable (the only process memory a later transition could observe)", "DESIGN.md 6 C03"),
- "C09": ("signature/permission clauses from the statement on Terminate and UpdateMeta (owner or read-write grantee), frame of all other models, trusted contract for verifySignature (sao-did)", "DESIGN.md 6 C09"),
+ "C09": ("signature/permission clauses from the statement on Store, Renew (owner only), Terminate and UpdateMeta (owner or read-write grantee), frame of all other models, trusted contract for verifySignature (sao-did)", "DESIGN.md 6 C09"),
  "C15": ("functional contracts of the selection chain: node filter (eligibility, stored, pairwise distinct via key order), RandomIndex (range, distinct, terminates), GetNextSuperNodes, RandomSP (count, eligible, not ignored, distinct); SelectNodes assumed with a bounded stand-in", "DESIGN.md 6 C15"),
- "C20": ("Super ==> Req clauses on CheckDelegationShare, CheckNodeShare, AddVstorage (promotion) and RemoveVstorage (demotion)", "DESIGN.md 6 C20"),
+ "C20": ("Super ==> Req clauses on CheckDelegationShare, CheckNodeShare, AddVstorage (promotion), RemoveVstorage (demotion) and the staking hooks (promotion only with full status, pledge threshold and delegation share)", "DESIGN.md 6 C20"),
 }
 na = {
  "_C01": "not yet decided by the machinery in this commit (det@ frame obligations are designed in DESIGN.md 3.4 but not built)",
  "_C03": "not yet decided by the machinery in this commit (global-variable frame obligations not built)",
  "_C09": "not yet decided: the Store/Renew/Terminate/UpdataPermission handlers are not under contract yet",
- "C12": "not yet decided: HandleTimeoutOrder / Store scheduling clauses not under contract yet; the liveness half needs a meta-argument over block production in any case",
- "C13": "not yet decided: relational invariants over order/shard/model lists not under contract yet",
  "_C15": "not yet decided: selection functions (RandomIndex, SelectNodes, GetNextSuperNodes, RandomSP) not under contract yet; SelectNodes/heapify write slice elements in place, which is outside the value-semantics subset of the engine",
  "C17": "not yet decided: did handlers not under contract yet",
  "C18": "not yet decided: genesis functions not under contract yet",
